@@ -38,6 +38,7 @@ type Clause struct {
 	File  string
 	Line  int
 	Label string // optional label: `ensures [W1] e`
+	Assumed bool // callsite ... assumes: assumed instead of checked
 }
 
 type Contract struct {
@@ -343,17 +344,23 @@ func (lib *SpecLib) loadContractFile(path, pkgPath string) error {
 			case "callsite":
 				// callsite <callee name> requires <expr over the callee's parameter names>
 				f := strings.Fields(rest)
-				if len(f) < 3 || f[1] != "requires" {
-					return fail(fmt.Errorf("callsite <name> requires <expr>"))
+				if len(f) < 3 || (f[1] != "requires" && f[1] != "assumes") {
+					return fail(fmt.Errorf("callsite <name> requires|assumes <expr>"))
 				}
 				cl.Kind = "callsite"
 				cl.Label = f[0]
-				cl.Text = strings.TrimSpace(strings.TrimPrefix(strings.TrimSpace(strings.TrimPrefix(strings.TrimSpace(rest), f[0])), "requires"))
+				cl.Text = strings.TrimSpace(strings.TrimPrefix(strings.TrimSpace(strings.TrimPrefix(strings.TrimSpace(rest), f[0])), f[1]))
 				e, err := parseCExpr(cl.Text)
 				if err != nil {
 					return fail(err)
 				}
 				cl.Expr = e
+				if f[1] == "assumes" {
+					// callsite <name> assumes <expr>: a fact about the state at that call that comes from a dependency
+					// (what a decoder produced, say); assumed, never checked, and listed as such
+					cl.Assumed = true
+					lib.Scans = append(lib.Scans, fmt.Sprintf("callsite assumes (dependency behaviour, not checked) in %s (%s:%d): %s %s", cur.Key, filepath.Base(path), it.line, cl.Label, cl.Text))
+				}
 				cur.Clauses = append(cur.Clauses, cl)
 				continue
 			case "sendsite":
